@@ -83,14 +83,14 @@ def run(prog: Program, res: Result, tier: str) -> None:
     sm = nfp.sets("self.stats_mask")
     ok = len(sm) == 2
     for e in sm:
-        fnm = "double_mad_mask" if e.under("method == 'mad'") else "iqrm_mask" if e.under("method == 'iqrm'") else None
+        fnm = "double_mad_mask" if e.selects("method", "mad") else "iqrm_mask" if e.selects("method", "iqrm") else None
         if fnm is None:
             ok = False
             continue
         parts = ", ".join(f"{fnm}(self.{c}, self.threshold)" for c in ("chan_var", "chan_skew", "chan_kurt"))
         ok = ok and e.text() in (f"np.logical_or.reduce((self.stats_mask, {parts}))", f"np.logical_or.reduce([self.stats_mask, {parts}])",
                                  f"np.logical_or(self.stats_mask, np.logical_or.reduce(({parts})))")
-    ok = ok and any(e.under("method != 'mad'", "method != 'iqrm'") for e in nfp.raises())
+    ok = ok and any(e.excludes("method", "mad", "iqrm") for e in nfp.raises())
     (res.ok if ok else res.bad)("R1", ap, ap.node, "stored stats mask |= var | skew | kurtosis outliers of the chosen method at self.threshold" if ok else
                                 "apply_method no longer ORs the variance, skewness and kurtosis masks of the chosen method into the stored stats mask", construct="apply_method", key="apply_method")
     f = prog.func(RFI, "double_mad_mask")
@@ -236,6 +236,11 @@ def run(prog: Program, res: Result, tier: str) -> None:
         flat(t)
         stored_types |= set(parts)
     generic = {"int": {"int", "np.integer"}, "float": {"float", "np.floating"}, "str": {"str"}, "bool": {"int", "bool", "np.integer"}}
+    # a Header rebuilt by from_file holds what h5py hands back - numpy scalars: the filter has to accept those too, or a
+    # mask that was loaded, saved and loaded again loses the field (F59).  Unless from_file converts them (.item()).
+    numpy_form = {"int": {"np.integer", "np.generic"}, "float": {"np.floating", "np.generic", "np.number"}, "str": {"str", "np.str_", "np.generic"},
+                  "bool": {"np.bool_", "np.bool", "np.generic"}}
+    converts = ".item()" in norm(ff.node) or ".tolist()" in norm(ff.node)
     tsrc, fsrc = norm(tf.node), norm(ff.node)
     hdr_loop = "for key, value in attrs.asdict(self.header).items():" in tsrc and "fp.attrs[key] = value" in tsrc
     (res.ok if hdr_loop else res.bad)("R4", tf, tf.node, "header fields of generic types are stored as HDF5 attributes by name" if hdr_loop else
@@ -247,7 +252,11 @@ def run(prog: Program, res: Result, tier: str) -> None:
             res.ok("R4", tf, hdr.fields[name], f"named exception: {FIELD_EXCEPTIONS[name]}", key=key)
             continue
         if ann in generic and generic[ann] & stored_types:
-            res.ok("R4", tf, hdr.fields[name], f"Header.{name}: {ann} is stored generically", key=key)
+            if converts or numpy_form[ann] & stored_types:
+                res.ok("R4", tf, hdr.fields[name], f"Header.{name}: {ann} is stored generically (as a Python value and as the numpy scalar a loaded header holds)", key=key)
+            else:
+                res.bad("R4", tf, hdr.fields[name], f"Header.{name}: a header loaded by from_file holds this {ann} field as a numpy scalar, which to_file's isinstance filter "
+                        f"({sorted(stored_types)}) skips: a mask that is loaded, saved and loaded again has the default {name}", key=key)
             continue
         # explicit: some attribute derived from self.header.<name> is written, and from_file rebuilds hdr_checked[<name>]
         w_ok = f"self.header.{name}" in tsrc
@@ -316,5 +325,9 @@ MUTANTS = [
      "old": "            hdr_checked[\"zenith\"] = Angle(fp_attrs[\"zenith_deg\"], unit=\"deg\")\n", "new": ""},
     {"id": "c16-threshold-not-stored", "file": RF, "expect": "C16.R4",
      "old": "            fp.attrs[\"threshold\"] = self.threshold\n", "new": ""},
+]
+MUTANTS += [
+    {"id": "c16-revert-F59", "file": "sigpyproc/core/rfi.py", "expect": "C16.R4",
+     "old": "                    np.integer | np.floating | np.bool_ | int | float | str,\n", "new": "                    np.integer | np.floating | int | float | str,\n"},
 ]
 TWINS = []
